@@ -497,7 +497,7 @@ class ProgGen:
         r = self.rng
         n = r.randint(0, 5)
         k = r.choice(['rec', 'counter', 'hof', 'loop', 'shadow', 'quote', 'qq', 'eval', 'variadic', 'setdeep', 'twoclos', 'letseq',
-                      'nil1', 'nil2', 'nil3', 'nil4', 'mset', 'mset2', 'msetclo'])
+                      'nil1', 'nil2', 'nil3', 'nil4', 'mset', 'mset2', 'msetclo', 'recshadow', 'laterdef', 'evaldef'])
         f, g, x, y = self.fresh(), self.fresh(), r.choice(self.names), r.choice(self.names)
         if k == 'rec':
             return [['define', f, ['fn', [x], ['if', ['<', x, 1], 0, ['+', x, [f, ['-', x, 1]]]]]], [f, n]]
@@ -526,6 +526,17 @@ class ProgGen:
             return [['define', f, ['let', [[x, 0]], ['list', ['fn', [], ['set', [x, ['+', x, 1]]]], ['fn', [], x]]]],
                     [['first', f]], [['first', f]], [['second', f]]]
         nil = r.choice([['if', False, 1], ['print', {'s': 'z'}], ['do'], ['while', False, 1]])
+        if k == 'recshadow':
+            # a local recursive function whose name shadows an outer binding
+            return [['define', f, 5], ['let', [[x + 'z', 1]], ['define', f, ['fn', [x], ['if', ['<', x, 1], 0, ['+', x, [f, ['-', x, 1]]]]]], [f, n]], f]
+        if k == 'laterdef':
+            # a closure refers to a name that the same scope defines later (and an outer scope binds differently)
+            return [['define', g, 5], ['let', [[x + 'z', 1]], ['define', f, ['fn', [], [g]]], ['define', g, ['fn', [], n]], [f]], g]
+        if k == 'evaldef':
+            # eval'd code with its own define of a name that is also global (the define lands in the current frame)
+            v = self.fresh()
+            return [['define', v, 1], ['let', [[x, 2]], ['+', ['eval', ['quote', ['do', ['define', v, n], ['*', v, v]]]], x]],
+                    [['fn', [x], ['eval', ['quote', ['do', ['define', v, 7], ['+', v, x]]]]], 3], v]
         if k == 'nil1':
             return [['define', x, 5], ['let', [[x, nil]], ['list', x]], ['list', x]]
         if k == 'nil2':
